@@ -136,16 +136,46 @@ def r2(ctx):
         ctx.check(ok, "C18.R2", rd, "test `%s` reads the 7-bit field" % norm(t.ast),
                   "an extended length that happens to equal 126/127 must not be re-interpreted as a form selector", witness={"reaching_definitions": srcs}, line=t.lineno)
     # forms: 126 -> !H from recv(2); 127 -> !Q from recv(8)
+    # (by value: the format and the number of bytes received are read through the temporaries that hold them)
+    from .common import sym_expr
     us = [s for s in struct_sites(rd, ctx.folder) if s.kind == "unpack"]
     got = {}
+    decoded = {}
     for u in us:
-        k = ctx.folder.fold(u.args[0].args[0], rd.module) if u.args and isinstance(u.args[0], ast.Call) and norm(u.args[0].func).endswith(".recv") else None
-        conds = [(norm(tt), p) for (tt, p) in cfg.conditions_of(cfg.node_of(u.call).id)]
+        un = cfg.node_of(u.call)
+        fmt = u.fmt if u.fmt is not None else ctx.folder.fold(sym_expr(rd, u.call.args[0], un), rd.module)
+        data = sym_expr(rd, u.call.args[1], un, allow_calls=lambda t: t.endswith(".recv") or t == "struct.calcsize") if len(u.call.args) > 1 else None
+        k = None
+        if isinstance(data, ast.Call) and norm(data.func).endswith(".recv") and data.args:
+            k = ctx.folder.fold(sym_expr(rd, data.args[0], un, allow_calls=("struct.calcsize",)), rd.module)
+            if not isinstance(k, int) and isinstance(data.args[0], ast.Call) and norm(data.args[0].func) == "struct.calcsize":
+                f2 = ctx.folder.fold(sym_expr(rd, data.args[0].args[0], un), rd.module)
+                k = fmt_size(f2) if isinstance(f2, str) else None
+        conds = [(norm(tt), p) for (tt, p) in cfg.conditions_of(un.id)]
         sel = [c for c in conds if c[1] and c[0].startswith("%s == " % var)]
-        got[sel[0][0] if sel else "?"] = (u.fmt, k)
+        got[sel[0][0] if sel else "?"] = (fmt, k)
+        decoded[sel[0][0] if sel else "?"] = u
     ctx.check(got == {"%s == 126" % var: ("!H", 2), "%s == 127" % var: ("!Q", 8)}, "C18.R2", rd, "126 -> !H from 2 bytes; 127 -> !Q from 8 bytes", witness=got)
+    # payload_length: on the 126 / 127 paths the decoded value, otherwise the 7-bit field itself
     st = [n for n in walk_own(rd.node) if isinstance(n, ast.Assign) and norm(n.targets[0]) == "self.payload_length"]
-    ctx.check(len(st) == 1 and norm(st[0].value) == var, "C18.R2", rd, "payload_length := the decoded length")
+    okp = bool(st)
+    wit = []
+    for n in st:
+        nn = cfg.node_of(n)
+        conds = [(norm(tt), p) for (tt, p) in cfg.conditions_of(nn.id)]
+        sel = [c[0] for c in conds if c[1] and c[0].startswith("%s == " % var)]
+        v = sym_expr(rd, n.value, nn, allow_calls=lambda t: t == "struct.unpack" or t.endswith(".recv") or t == "struct.calcsize")
+        vt = norm(v)
+        wit.append({"under": sel, "value": vt})
+        if sel:
+            okp = okp and vt.startswith("struct.unpack(") and vt.endswith("[0]")
+        elif len(st) == 1:
+            # one store after the branches: the variable that every branch has re-bound to its decoded value
+            defs = du.reaching(norm(n.value), nn.id) if isinstance(n.value, ast.Name) else []
+            okp = okp and isinstance(n.value, ast.Name) and len(defs) == 3
+        else:
+            okp = okp and vt in (var, "self.flags.length")
+    ctx.check(okp and (len(st) == 1 or len(st) == 3), "C18.R2", rd, "payload_length := the decoded length", witness=wit)
     mk = [n for n in walk_own(rd.node) if isinstance(n, ast.If) and norm(n.test) == "self.flags.mask"]
     ok = len(mk) == 1 and any(norm(s) == "self.masking_key = %s.recv(4)" % rd.params[1] for s in mk[0].body)
     ctx.check(ok, "C18.R2", rd, "the 4-byte masking key is read iff the mask flag is set, after the extended length")
@@ -166,6 +196,11 @@ def r3(ctx):
         if site.fmt is not None:
             return [site.fmt]
         a0 = site.call.args[0] if site.call.args else None
+        if isinstance(a0, ast.Name):
+            from .common import sym_expr as _se
+            v_ = ctx.folder.fold(_se(site.fi, a0, cfg_of(site.fi).node_of(site.call)), site.fi.module)
+            if isinstance(v_, str):
+                return [v_]
         if isinstance(a0, ast.IfExp):
             arms = [ctx.folder.fold(x, site.fi.module) for x in (a0.body, a0.orelse)]
             if all(isinstance(x, str) for x in arms):
@@ -191,13 +226,39 @@ def r3(ctx):
             if isinstance(inner, ast.BinOp) and isinstance(inner.op, ast.RShift) and isinstance(inner.left, ast.BinOp) and isinstance(inner.left.op, ast.BitAnd):
                 par[name] = (ctx.folder.fold(inner.left.right, ph.module), inner.right.value if isinstance(inner.right, ast.Constant) else None, norm(inner.left.left))
     want = {"fin": (0x80, 7), "rsv1": (0x40, 6), "rsv2": (0x20, 5), "rsv3": (0x10, 4), "opcode": (0x0F, 0)}
+    # the parse side is decided by evaluating each field's expression for all 256 values of its byte (constant folding with the
+    # byte bound to each value in turn): it must equal (byte & mask) >> shift, whatever mix of shifts and masks spells it
+    unp = u[0].call._parent.targets[0].elts if ok and isinstance(u[0].call._parent, ast.Assign) and isinstance(u[0].call._parent.targets[0], ast.Tuple) else []
+    b1, b2 = (unp[0].id, unp[1].id) if len(unp) == 2 and all(isinstance(e, ast.Name) for e in unp) else (None, None)
+    pasg = {norm(n.targets[0])[len("self.flags."):]: n.value for n in walk_own(ph.node) if isinstance(n, ast.Assign) and norm(n.targets[0]).startswith("self.flags.")}
+
+    def table(expr, byte):
+        """[value of expr for byte = 0..255], None when it does not fold or reads anything else"""
+        if expr is None or byte is None:
+            return None
+        if isinstance(expr, ast.Call) and norm(expr.func) == "WebSocketOpCode" and len(expr.args) == 1:
+            expr = expr.args[0]
+        if any(isinstance(x, ast.Name) and x.id != byte for x in ast.walk(expr)):
+            return None
+        out = []
+        for v_ in range(256):
+            r_ = ctx.folder.fold(expr, ph.module, cls=ph.cls, env={byte: v_})
+            if isinstance(r_, bool):
+                r_ = int(r_)
+            if not isinstance(r_, int):
+                return None
+            out.append(r_)
+        return out
     for name, (mask, shift) in want.items():
-        okf = ser.get(name) == shift and par.get(name, (None, None, None))[:2] == (mask, shift) and par.get(name, (0, 0, ""))[2] == "flags" and (mask >> shift) in (1, 15)
+        tb = table(pasg.get(name), b1)
+        okf = ser.get(name) == shift and tb is not None and tb == [(v_ & mask) >> shift for v_ in range(256)] and (mask >> shift) in (1, 15)
+        bad = next((v_ for v_ in range(256) if tb is not None and tb[v_] != (v_ & mask) >> shift), None)
         ctx.check(okf, "C18.R3", ph, "flag %s: serialize << %d, parse (& 0x%02X) >> %d" % (name, shift, mask, shift), "RFC 6455 bit positions, same on both sides",
-                  witness={"serialize_shift": ser.get(name), "parse": par.get(name)})
+                  witness={"serialize_shift": ser.get(name), "parse": norm(pasg[name]) if name in pasg else None, "first_byte_value_that_differs": bad})
+    tm, tl = table(pasg.get("mask"), b2), table(pasg.get("length"), b2)
+    ctx.check(tm == [v_ >> 7 for v_ in range(256)] and tl == [v_ & 127 for v_ in range(256)], "C18.R3", ph, "mask = bit 7, 7-bit length = low bits of the second byte",
+              witness={k: norm(pasg[k]) if k in pasg else None for k in ("mask", "length")})
     asg = {norm(n.targets[0]): norm(n.value) for n in walk_own(ph.node) if isinstance(n, ast.Assign)}
-    ctx.check(asg.get("self.flags.mask") == "1 if length & 128 else 0" and asg.get("self.flags.length") == "length & 127", "C18.R3", ph, "mask = bit 7, 7-bit length = low bits of the second byte",
-              witness={k: asg.get(k) for k in ("self.flags.mask", "self.flags.length")})
     ctx.check("WebSocketOpCode(" in asg.get("self.flags.opcode", ""), "C18.R3", ph, "opcode is decoded into the enum (serialize uses .value)")
     # unmasking
     rdata = ctx.fn(F + "readData")
@@ -321,64 +382,81 @@ def r5(ctx):
     consuming = [x for q in (rb + avail, rb + "frameSize") if q in ctx.repo.funcs for x in walk_own(ctx.repo.funcs[q].node)
                  if (isinstance(x, ast.Call) and norm(x.func).endswith(".recv")) or (isinstance(x, (ast.Assign, ast.AugAssign)) and "self.buf" in [norm(t) for t in (x.targets if isinstance(x, ast.Assign) else [x.target])])]
     ctx.check(not consuming, "C18.R5", hf, "the availability test does not consume buffered bytes", witness=[norm(x) for x in consuming])
+    # by paths: every path returns False under `size is None`, or the comparison under `size is not None`, or their conjunction
     rets = [n for n in walk_own(hf.node) if isinstance(n, ast.Return)]
-    sz = [n for n in walk_own(hf.node) if isinstance(n, ast.Assign) and isinstance(n.value, ast.Call) and norm(n.value.func) == "self.frameSize"]
-    ok = len(rets) == 1 and len(sz) == 1
-    if ok:
-        sv = norm(sz[0].targets[0])
-        ok = norm(rets[0].value) in ("%s is not None and len(self.buf) >= %s" % (sv, sv), "%s is not None and %s <= len(self.buf)" % (sv, sv))
+    hp = sym_paths(hf)
+    S = "self.frameSize()"
+    cmp_ = ("len(self.buf) >= %s" % S, "%s <= len(self.buf)" % S)
+    ok = hp is not None and bool(hp)
+    for (conds, env, ret) in (hp or []):
+        cs = set(conds)
+        known = ("%s is None" % S, False) in cs or ("%s is not None" % S, True) in cs
+        unknown = ("%s is None" % S, True) in cs or ("%s is not None" % S, False) in cs
+        good = (unknown and ret == "False") or (known and ret in cmp_) or (not cs and ret in tuple("%s is not None and %s" % (S, c_) for c_ in cmp_))
+        ok = ok and good
     ctx.check(ok, "C18.R5", hf, "complete frame <=> frameSize() is known and len(buf) >= frameSize()", witness=[norm(r.value) for r in rets])
     fs = ctx.fn(rb + "frameSize")
-    # size accounting in frameSize equals what the read path consumes
-    consumed = {}
-    rh = ctx.fn(F + "readHeader")
-    rdh = ctx.fn(F + "readDataHeader")
-    for cc in calls_named(rh, "recv"):
-        consumed["header"] = ctx.folder.fold(cc.args[0], rh.module)
-    dcfg = cfg_of(rdh)
-    for cc in calls_named(rdh, "recv"):
-        cs = [x[0] for x in [(norm(tt), p) for (tt, p) in dcfg.conditions_of(dcfg.node_of(cc).id)] if x[1]]
-        key = "126" if any(x.endswith("== 126") for x in cs) else "127" if any(x.endswith("== 127") for x in cs) else "mask" if "self.flags.mask" in cs else "?"
-        consumed[key] = ctx.folder.fold(cc.args[0], rdh.module)
-    acc = {}
-    init = [n for n in walk_own(fs.node) if isinstance(n, ast.Assign) and norm(n.targets[0]) == "size"]
-    if init:
-        acc["header"] = ctx.folder.fold(init[0].value, fs.module)
-    fcfg = cfg_of(fs)
-    for n in fcfg.stmts((ast.AugAssign,)):
-        if norm(n.ast.target) == "size" and isinstance(n.ast.op, ast.Add):
-            cs = [x[0] for x in [(norm(tt), p) for (tt, p) in fcfg.conditions_of(n.id)] if x[1]]
-            key = "126" if any(x.endswith("== 126") for x in cs) else "127" if any(x.endswith("== 127") for x in cs) else "mask" if any("& 128" in x for x in cs) else "?"
-            acc[key] = ctx.folder.fold(n.ast.value, fs.module)
-    ctx.check(acc == consumed == {"header": 2, "126": 2, "127": 8, "mask": 4}, "C18.R5", fs, "frameSize counts exactly the bytes the read path consumes (2 + 2|8 + 4 if masked)",
-              witness={"frameSize": acc, "read_path": consumed})
-    rets = [norm(n.value) for n in walk_own(fs.node) if isinstance(n, ast.Return)]
-    ctx.check(sorted(set(rets)) == ["None", "size + length"], "C18.R5", fs, "frameSize = header bytes + payload length, or None while the header is incomplete", witness=rets)
-    # every peek of the extended length is preceded by a check that those bytes are buffered
-    us = [s for s in struct_sites(fs, ctx.folder) if s.kind == "unpack"]
-    okp = len(us) == 2
-    why = []
-    for u in us:
-        un = fcfg.node_of(u.call)
-        g = [(norm(tt), p) for (tt, p) in fcfg.conditions_of(un.id)]
-        branch = [c for c in g if c[1] and (c[0].endswith("== 126") or c[0].endswith("== 127"))]
-        # an availability test that is evaluated *inside* the branch (after the branch's `size += k`) and whose failure leaves
-        good = False
-        for t in fcfg.nodes:
-            if t.kind == "test" and norm(t.ast) in ("len(self.buf) < size", "size > len(self.buf)") and fcfg.edge_dominates(t.id, "F", un.id):
-                tc = [(norm(tt), p) for (tt, p) in fcfg.conditions_of(t.id)]
-                if branch and all(b_ in tc for b_ in branch):
-                    good = True
-        if not good:
-            why.append("%s peeked under %s without a buffered-length test inside that branch" % (u.fmt, [b_[0] for b_ in branch]))
-        okp = okp and good
-    ctx.check(okp, "C18.R5", fs, "the extended length is peeked only when its bytes are buffered (test inside the 126 / 127 branch, after the size was advanced)",
-              "a TCP read that ends inside the extended length field must not reach struct.unpack with a short slice", witness=why)
-    first = [n for n in walk_own(fs.node) if isinstance(n, ast.Subscript) and norm(n.value) == "self.buf" and not isinstance(n.slice, ast.Slice)]
-    idx_ok = all(norm(n.slice) == "1" for n in first)
-    ctx.check(idx_ok and len(first) >= 2, "C18.R5", fs, "mask bit and 7-bit length are peeked from the second byte", witness=[norm(n) for n in first])
-    fmts = sorted((s.fmt, norm(s.args[0])) for s in us)
-    ctx.check(fmts == [("!H", "self.buf[2:4]"), ("!Q", "self.buf[2:10]")], "C18.R5", fs, "extended length peeked with the read path's formats and offsets", witness=fmts)
+    ev = _frame_size_by_evaluation(ctx, fs)
+    if ev is not None:
+        labels = [("sizes", "frameSize counts exactly the bytes the read path consumes (2 + 2|8 + 4 if masked)"),
+                  ("incomplete", "frameSize = header bytes + payload length, or None while the header is incomplete"),
+                  ("raises", "the extended length is peeked only when its bytes are buffered (test inside the 126 / 127 branch, after the size was advanced)"),
+                  ("first_byte", "mask bit and 7-bit length are peeked from the second byte"),
+                  ("values", "extended length peeked with the read path's formats and offsets")]
+        for key, label in labels:
+            ctx.check(not ev[key], "C18.R5", fs, label, "frameSize evaluated (engine/minieval) on %d header prefixes: every second byte, every buffered length up to the full header" % ev["cases"],
+                      witness=ev[key][:3])
+    else:
+        # size accounting in frameSize equals what the read path consumes
+        consumed = {}
+        rh = ctx.fn(F + "readHeader")
+        rdh = ctx.fn(F + "readDataHeader")
+        for cc in calls_named(rh, "recv"):
+            consumed["header"] = ctx.folder.fold(cc.args[0], rh.module)
+        dcfg = cfg_of(rdh)
+        for cc in calls_named(rdh, "recv"):
+            cs = [x[0] for x in [(norm(tt), p) for (tt, p) in dcfg.conditions_of(dcfg.node_of(cc).id)] if x[1]]
+            key = "126" if any(x.endswith("== 126") for x in cs) else "127" if any(x.endswith("== 127") for x in cs) else "mask" if "self.flags.mask" in cs else "?"
+            consumed[key] = ctx.folder.fold(cc.args[0], rdh.module)
+        acc = {}
+        init = [n for n in walk_own(fs.node) if isinstance(n, ast.Assign) and norm(n.targets[0]) == "size"]
+        if init:
+            acc["header"] = ctx.folder.fold(init[0].value, fs.module)
+        fcfg = cfg_of(fs)
+        for n in fcfg.stmts((ast.AugAssign,)):
+            if norm(n.ast.target) == "size" and isinstance(n.ast.op, ast.Add):
+                cs = [x[0] for x in [(norm(tt), p) for (tt, p) in fcfg.conditions_of(n.id)] if x[1]]
+                key = "126" if any(x.endswith("== 126") for x in cs) else "127" if any(x.endswith("== 127") for x in cs) else "mask" if any("& 128" in x for x in cs) else "?"
+                acc[key] = ctx.folder.fold(n.ast.value, fs.module)
+        ctx.check(acc == consumed == {"header": 2, "126": 2, "127": 8, "mask": 4}, "C18.R5", fs, "frameSize counts exactly the bytes the read path consumes (2 + 2|8 + 4 if masked)",
+                  witness={"frameSize": acc, "read_path": consumed})
+        rets = [norm(n.value) for n in walk_own(fs.node) if isinstance(n, ast.Return)]
+        ctx.check(sorted(set(rets)) == ["None", "size + length"], "C18.R5", fs, "frameSize = header bytes + payload length, or None while the header is incomplete", witness=rets)
+        # every peek of the extended length is preceded by a check that those bytes are buffered
+        us = [s for s in struct_sites(fs, ctx.folder) if s.kind == "unpack"]
+        okp = len(us) == 2
+        why = []
+        for u in us:
+            un = fcfg.node_of(u.call)
+            g = [(norm(tt), p) for (tt, p) in fcfg.conditions_of(un.id)]
+            branch = [c for c in g if c[1] and (c[0].endswith("== 126") or c[0].endswith("== 127"))]
+            # an availability test that is evaluated *inside* the branch (after the branch's `size += k`) and whose failure leaves
+            good = False
+            for t in fcfg.nodes:
+                if t.kind == "test" and norm(t.ast) in ("len(self.buf) < size", "size > len(self.buf)") and fcfg.edge_dominates(t.id, "F", un.id):
+                    tc = [(norm(tt), p) for (tt, p) in fcfg.conditions_of(t.id)]
+                    if branch and all(b_ in tc for b_ in branch):
+                        good = True
+            if not good:
+                why.append("%s peeked under %s without a buffered-length test inside that branch" % (u.fmt, [b_[0] for b_ in branch]))
+            okp = okp and good
+        ctx.check(okp, "C18.R5", fs, "the extended length is peeked only when its bytes are buffered (test inside the 126 / 127 branch, after the size was advanced)",
+                  "a TCP read that ends inside the extended length field must not reach struct.unpack with a short slice", witness=why)
+        first = [n for n in walk_own(fs.node) if isinstance(n, ast.Subscript) and norm(n.value) == "self.buf" and not isinstance(n.slice, ast.Slice)]
+        idx_ok = all(norm(n.slice) == "1" for n in first)
+        ctx.check(idx_ok and len(first) >= 2, "C18.R5", fs, "mask bit and 7-bit length are peeked from the second byte", witness=[norm(n) for n in first])
+        fmts = sorted((s.fmt, norm(s.args[0])) for s in us)
+        ctx.check(fmts == [("!H", "self.buf[2:4]"), ("!Q", "self.buf[2:10]")], "C18.R5", fs, "extended length peeked with the read path's formats and offsets", witness=fmts)
     # (c) FIFO buffer
     pu = ctx.fn(rb + "_push")
     rc = ctx.fn(rb + "recv")
@@ -402,6 +480,73 @@ def r5(ctx):
     ch = ctx.fn("http_server:HTTPFactory.__init__.Channel.dataReceived")
     cs = [cc for cc in walk_own(ch.node) if isinstance(cc, ast.Call) and norm(cc.func) == "self.websocket_callback"]
     ctx.check(len(cs) == 1 and norm(cs[0].args[0]) == ch.params[1], "C18.R5", ch, "Channel.dataReceived forwards every raw read to the handler")
+
+
+def _frame_size_by_evaluation(ctx, fs):
+    """frameSize decided by partial evaluation (engine/minieval, the program is not run) on every header prefix: second byte
+    0..255, buffered lengths 0 .. header + 1, against what the read path consumes for that header (readHeader: 2 bytes;
+    readDataHeader: the 126 / 127 forms and the 4-byte masking key).  None when the function is outside the evaluator's fragment."""
+    from engine.minieval import MiniEval
+    from engine.index import Undecided
+    import struct
+    forms = _read_forms(ctx)
+    if forms is None:
+        return None
+    out = {"sizes": [], "incomplete": [], "raises": [], "first_byte": [], "values": [], "cases": 0}
+    try:
+        for b2 in range(256):
+            code, mask = b2 & 0x7F, b2 >> 7
+            fmt, ext = forms.get(code, (None, 0))
+            extb = bytes(range(1, ext + 1))
+            value = struct.unpack(fmt, extb)[0] if ext else code
+            need = 2 + ext
+            for first in ((0x82, 0xFF) if b2 in (0x05, 0x85, 0x7E, 0xFE, 0x7F, 0xFF) else (0x82,)):
+                full = bytes([first, b2]) + extb + b"\x00" * 5
+                for L in range(0, need + 2):
+                    buf = full[:L]
+                    out["cases"] += 1
+                    r = MiniEval(ctx.repo, ctx.folder, fs, self_attrs={"buf": buf}).call([])
+                    case = {"buffer": buf.hex(), "result": r[1] if r[0] == "return" else "raises %s" % r[1]}
+                    if r[0] != "return":
+                        out["raises"].append(case)
+                        continue
+                    if L < need:
+                        if r[1] is not None:
+                            out["incomplete"].append(dict(case, expected=None))
+                        continue
+                    want = need + 4 * mask + value
+                    if r[1] != want:
+                        kind = "first_byte" if first == 0xFF else "values" if (ext and isinstance(r[1], int) and r[1] - need - 4 * mask != value and (r[1] - value) != (want - value)) else "sizes"
+                        # a wrong total with the right decoded value is an accounting error, otherwise a decoding error
+                        if ext and isinstance(r[1], int) and (r[1] - (need + 4 * mask)) != value:
+                            kind = "values" if first != 0xFF else "first_byte"
+                        out[kind].append(dict(case, expected=want))
+    except Undecided:
+        return None
+    return out
+
+
+def _read_forms(ctx):
+    """{126: (format, bytes), 127: (format, bytes)} of the read path (readDataHeader), by value; None when not of that shape"""
+    from .common import sym_expr
+    rd = ctx.fn(F + "readDataHeader")
+    cfg = cfg_of(rd)
+    forms = {}
+    for c in walk_own(rd.node):
+        if isinstance(c, ast.Call) and norm(c.func) == "struct.unpack" and c.args:
+            fmt = ctx.folder.fold(sym_expr(rd, c.args[0], cfg.node_of(c)), rd.module)
+            sel = None
+            for (t, p) in cfg.conditions_of(cfg.node_of(c).id):
+                if p and isinstance(t, ast.Compare) and len(t.ops) == 1 and isinstance(t.ops[0], ast.Eq) and isinstance(t.comparators[0], ast.Constant) and t.comparators[0].value in (126, 127):
+                    sel = t.comparators[0].value
+            if sel is None or not isinstance(fmt, str):
+                return None
+            try:
+                import struct
+                forms[sel] = (fmt, struct.calcsize(fmt))
+            except Exception:
+                return None
+    return forms if set(forms) == {126, 127} else None
 
 
 def r_idioms(ctx):
